@@ -49,6 +49,18 @@ Section Machine.
   Definition run_fresh (op : Op) : Obs := snd (call init op).
 End Machine.
 
+(* Two instances owned by one object and used side by side (a marshaler owns a
+   type cache and an encoder; an unmarshaler a type cache, a decoder and a
+   validator).  What the owner answers is determined by what its parts answer. *)
+Section Pair.
+  Context {S1 S2 Op1 Op2 Obs1 Obs2 : Type}.
+  Variable call1 : S1 -> Op1 -> S1 * Obs1.
+  Variable call2 : S2 -> Op2 -> S2 * Obs2.
+  Definition call_pair (s : S1 * S2) (op : Op1 * Op2) : (S1 * S2) * (Obs1 * Obs2) :=
+    ((fst (call1 (fst s) (fst op)), fst (call2 (snd s) (snd op))),
+     (snd (call1 (fst s) (fst op)), snd (call2 (snd s) (snd op)))).
+End Pair.
+
 (* ------------------------------------------------------------------ *)
 (* 1. The rules validator                                               *)
 (* ------------------------------------------------------------------ *)
@@ -79,38 +91,50 @@ Definition rules_call (cfg : rcfg) (c : rctx) (es : list event) : rctx * rules_o
 (* 2. The CBE reader (document size accounting)                         *)
 (* ------------------------------------------------------------------ *)
 
-(* Reader.bytesRead; the byte buffer is overwritten before it is read. *)
-Record reader := { bytes_read : N }.
-Definition reader_init : reader := {| bytes_read := 0 |}.
+(* Reader.bytesRead and Reader.pendingErr (an error the source returned together
+   with data, or the end of the source: it is reported by every later Read); the
+   byte buffer is overwritten before it is read. *)
+Record reader := { bytes_read : N; pending_err : bool }.
+Definition reader_init : reader := {| bytes_read := 0; pending_err := false |}.
 
-(* SetReader: the source is replaced and counting starts again. *)
-Definition reader_set_reader (r : reader) : reader := {| bytes_read := 0 |}.
+(* SetReader: the source is replaced, counting starts again, no error is pending. *)
+Definition reader_set_reader (r : reader) : reader := {| bytes_read := 0; pending_err := false |}.
 
-(* markBytesRead: uint64 addition, then the limit check (the counter keeps the
-   new value when the check fails). *)
-Definition reader_mark (max n : N) (r : reader) : reader * bool :=
-  let b := (bytes_read r + n) mod Rules.two64 in
-  ({| bytes_read := b |}, b <=? max).
+(* For the reader a decode is the sequence of results (n, err) its source gives
+   to the successive Read calls.  Reader.Read: a pending error ends the decode;
+   data is counted (markBytesRead: uint64 addition, then the limit check, the
+   counter keeping the new value when the check fails) and an error that came
+   with it is kept for the next call; no data and no error is retried; no data
+   and an error ends the decode.  Result: state, number of source reads
+   performed, and how the decode stopped. *)
+Inductive rstop := RDone | RLimit | RPending.
+Definition rstop_eqb (a b : rstop) : bool :=
+  match a, b with RDone, RDone | RLimit, RLimit | RPending, RPending => true | _, _ => false end.
 
-(* A decode is, for the reader, the sequence of reads it is asked for (sizes of
-   the successive Read results).  It stops at the first read that pushes the
-   count over the limit.  Result: final state and index of that read. *)
-Fixpoint reader_reads (max : N) (i : N) (reads : list N) (r : reader) : reader * option N :=
+Fixpoint reader_reads (max : N) (reads : list (N * bool)) (r : reader) (done : N) : reader * (N * rstop) :=
   match reads with
-  | [] => (r, None)
-  | n :: rest =>
-      let '(r1, ok) := reader_mark max n r in
-      if ok then reader_reads max (N.succ i) rest r1 else (r1, Some i)
+  | [] => (r, (done, RDone))
+  | (n, e) :: rest =>
+      if pending_err r then (r, (done, RPending))
+      else if n =? 0 then
+        (if e then ({| bytes_read := bytes_read r; pending_err := true |}, (N.succ done, RDone))
+         else reader_reads max rest r (N.succ done))
+      else
+        let b := (bytes_read r + n) mod Rules.two64 in
+        if b <=? max then reader_reads max rest {| bytes_read := b; pending_err := e |} (N.succ done)
+        else ({| bytes_read := b; pending_err := pending_err r |}, (N.succ done, RLimit))
   end.
 
+Definition reader_obs := (N * rstop)%type.
+
 (* Decoder.Decode: SetReader, then the reads of this document. *)
-Definition reader_call (max : N) (r : reader) (reads : list N) : reader * option N :=
-  reader_reads max 0 reads (reader_set_reader r).
+Definition reader_call (max : N) (r : reader) (reads : list (N * bool)) : reader * reader_obs :=
+  reader_reads max reads (reader_set_reader r) 0.
 
 (* The same machine without the reset, to show what the reset is needed for
-   (this is what the code did before the fix of SetReader). *)
-Definition reader_call_noreset (max : N) (r : reader) (reads : list N) : reader * option N :=
-  reader_reads max 0 reads r.
+   (SetReader did not restart the count before it was repaired). *)
+Definition reader_call_noreset (max : N) (r : reader) (reads : list (N * bool)) : reader * reader_obs :=
+  reader_reads max reads r 0.
 
 (* ------------------------------------------------------------------ *)
 (* 3. The CBE encoder                                                   *)
@@ -402,8 +426,8 @@ Fixpoint ty_eqb (a b : ty) : bool :=
 
 (* sync.Map of the session beyond the entries inherited from the root session:
    [true] = generated iterator / generator stored (or a placeholder whose
-   WaitGroup was released), [false] = placeholder whose WaitGroup is never
-   released: whoever calls it blocks forever. *)
+   WaitGroup was released), [false] = placeholder whose WaitGroup is not
+   released (yet): whoever calls it blocks. *)
 Definition cache := list (ty * bool).
 Definition cache_init : cache := [].
 
@@ -411,6 +435,12 @@ Fixpoint lookup (k : ty) (c : cache) : option bool :=
   match c with
   | [] => None
   | (k', st) :: r => if ty_eqb k k' then Some st else lookup k r
+  end.
+(* sync.Map.Delete *)
+Fixpoint remove_key (k : ty) (c : cache) : cache :=
+  match c with
+  | [] => []
+  | (k', st) :: r => if ty_eqb k k' then remove_key k r else (k', st) :: remove_key k r
   end.
 Fixpoint set_ready (k : ty) (c : cache) : cache :=
   match c with
@@ -422,7 +452,10 @@ Fixpoint set_ready (k : ty) (c : cache) : cache :=
    and whether the generator panicked.  A cached entry is returned as it is
    (placeholder or not); otherwise a placeholder is stored FIRST, then the
    default generator runs (asking for the component types), and only when it
-   returns is the WaitGroup released and the real entry stored. *)
+   returns is the WaitGroup released and the real entry stored.  When the
+   generator panics, the deferred handler deletes the placeholder again (and
+   releases its WaitGroup with the error) before the panic travels on, so every
+   generation in progress removes its own placeholder. *)
 Fixpoint gen (c : cache) (t : ty) : cache * bool :=
   match t with
   | TDyn _ => (c, true)                    (* interface{}: inherited from the root session *)
@@ -434,7 +467,7 @@ Fixpoint gen (c : cache) (t : ty) : cache * bool :=
         let c1 := (k, false) :: c in
         match t with
         | TLeaf _ => (set_ready k c1, true)
-        | TBad _ => (c1, false)
+        | TBad _ => (remove_key k c1, false)
         | TComp _ cs =>
             let '(c2, ok) :=
               (fix go (c : cache) (l : list (bool * ty)) : cache * bool :=
@@ -442,7 +475,7 @@ Fixpoint gen (c : cache) (t : ty) : cache * bool :=
                  | [] => (c, true)
                  | (_, u) :: l' => let '(c', ok) := gen c u in if ok then go c' l' else (c', false)
                  end) c1 cs in
-            if ok then (set_ready k c2, true) else (c2, false)
+            if ok then (set_ready k c2, true) else (remove_key k c2, false)
         | TDyn _ => (c, true)
         end
     end
@@ -506,6 +539,21 @@ Fixpoint supported (t : ty) : bool :=
   end.
 
 (* ------------------------------------------------------------------ *)
+(* 5b. Marshaler and unmarshaler as owners of their parts                *)
+(* ------------------------------------------------------------------ *)
+
+(* cbe.Marshaler: iterator session + CBE encoder; op = (type of the value, events it is iterated into) *)
+Definition cbe_marshaler_call := call_pair (cache_call true) cbe_enc_call.
+Definition cbe_marshaler_init := (cache_init, Cbe.enc_init).
+(* cte.Marshaler: iterator session + CTE encoder *)
+Definition cte_marshaler_call := call_pair (cache_call true) cte_call.
+Definition cte_marshaler_init := (cache_init, cte_init).
+(* cbe.Unmarshaler: builder session + (CBE reader + validator); op = (template type, (reads of the document, its events)) *)
+Definition cbe_unmarshaler_call (max : N) (cfg : rcfg) :=
+  call_pair (cache_call false) (call_pair (reader_call max) (rules_call cfg)).
+Definition cbe_unmarshaler_init := (cache_init, (reader_init, init_rctx)).
+
+(* ------------------------------------------------------------------ *)
 (* 6. Correspondence cases                                              *)
 (* ------------------------------------------------------------------ *)
 
@@ -513,9 +561,9 @@ Fixpoint supported (t : ty) : bool :=
    what that instance answered, call by call. *)
 Inductive reuse_case :=
 | RulesHist (cfg : rcfg) (docs : list (list event)) (rejected : list (option N))
-| ReaderHist (max : N) (docs : list (list N * bool)) (seen : list (list N * bool))
-    (* per document: the reads an unlimited decoder performs and whether it fails;
-       observed: the reads the limited, reused decoder performed and whether it failed *)
+| ReaderHist (max : N) (docs : list (list (N * bool) * bool)) (seen : list (list (N * bool) * bool))
+    (* per document: the source reads (n, err) an unlimited decoder performs and whether it fails;
+       observed: the source reads the limited, reused decoder performed and whether it failed *)
 | CbeEncHist (docs : list (list event)) (seen : list (option N * bytes))
 | CteEncHist (docs : list (list cev)) (seen : list (option N * bytes))
 | CacheHist (dynamic : bool) (ops : list ty) (seen : list cres).
@@ -525,15 +573,14 @@ Definition enc_obs_eqb (a b : option N * bytes) : bool :=
   option_eqb N.eqb (fst a) (fst b) && bytes_eqb (snd a) (snd b).
 
 (* what the limited decoder does with a document whose unlimited read plan is [plan] *)
-Definition reader_expect (max : N) (r : reader) (doc : list N * bool) : reader * (list N * bool) :=
+Definition reader_expect (max : N) (r : reader) (doc : list (N * bool) * bool) : reader * (list (N * bool) * bool) :=
   let '(plan, fails) := doc in
-  match reader_call max r plan with
-  | (r', None) => (r', (plan, fails))
-  | (r', Some i) => (r', (firstn (S (N.to_nat i)) plan, true))
-  end.
+  let '(r', (done, stop)) := reader_call max r plan in
+  (r', (firstn (N.to_nat done) plan, match stop with RDone => fails | _ => true end)).
 
-Definition reads_obs_eqb (a b : list N * bool) : bool :=
-  list_eqb N.eqb (fst a) (fst b) && Bool.eqb (snd a) (snd b).
+Definition read_eqb (a b : N * bool) : bool := (fst a =? fst b) && Bool.eqb (snd a) (snd b).
+Definition reads_obs_eqb (a b : list (N * bool) * bool) : bool :=
+  list_eqb read_eqb (fst a) (fst b) && Bool.eqb (snd a) (snd b).
 
 (* the cache history stops at the first hang *)
 Fixpoint cache_run_all (dynamic : bool) (c : cache) (ops : list ty) : list cres :=
